@@ -3,7 +3,7 @@
 //! no such feature, so the harness supplies its own `endpoint::Config` (same associated types as the
 //! crate's `endpoint::testing::Server`) and calls the public `Path::new` exactly like `path::Manager` does.
 //!
-//! ops: `new server|client`, `recv <n>`, `send <n>`, `validate`, `query`
+//! ops: `new server|client`, `recv <n>`, `send <n>`, `validate`, `query`, `cc <limited 0|1> <fast-retransmission 0|1>`
 //!   -> `ok <at_amplification_limit> <transmission_constraint> <is_validated> <unblocked>`
 //! `send` models the connection: a datagram is started only when `!at_amplification_limit()`
 //! (`can_transmit`); otherwise `err limited` and `on_bytes_transmitted` is not called.
@@ -153,6 +153,18 @@ impl Component for Amp {
                 self.show(false)
             }
             ["query"] => self.show(false),
+            ["cc", l, f] => {
+                // the (mock) congestion controller's state: window exhausted / fast retransmission required
+                let (l, f) = match (*l, *f) {
+                    ("0" | "1", "0" | "1") => (*l == "1", *f == "1"),
+                    _ => return "bad-op".into(),
+                };
+                with!(self, p => {
+                    p.congestion_controller.requires_fast_retransmission = f;
+                    p.congestion_controller.bytes_in_flight = if l { p.congestion_controller.congestion_window } else { 0 };
+                });
+                self.show(false)
+            }
             _ => "bad-op".into(),
         }
     }
